@@ -19,9 +19,10 @@ import (
 	"os"
 	"path/filepath"
 	"regexp"
-	"sort"
+	"runtime/pprof"
 	"strconv"
 	"strings"
+	"sync"
 	"time"
 
 	coraza "github.com/corazawaf/coraza/v3"
@@ -87,12 +88,15 @@ func (k *kase) UnmarshalJSON(b []byte) error {
 type env struct {
 	scratch string // cwd of the process; every relative or @@S@@ path lands here; emptied after every case
 	fx      string // read-only fixtures
+	tmp     string // TMPDIR of the process
 	environ []string
+	n       int
 }
 
 func newEnv(work string) (*env, error) {
 	e := &env{scratch: filepath.Join(work, "s"), fx: filepath.Join(work, "fx")}
 	tmp := filepath.Join(work, "tmp")
+	e.tmp = tmp
 	for _, d := range []string{e.scratch, e.fx, tmp} {
 		if err := os.MkdirAll(d, 0o755); err != nil {
 			return nil, err
@@ -136,12 +140,19 @@ func (e *env) expand(conf string) string {
 
 // cleanup empties the scratch directory and undoes setenv actions.
 func (e *env) cleanup(conf string) {
-	if ents, err := os.ReadDir(e.scratch); err == nil {
-		for _, en := range ents {
-			_ = os.RemoveAll(filepath.Join(e.scratch, en.Name()))
+	lc := strings.ToLower(conf)
+	e.n++
+	if e.n%512 == 0 || strings.Contains(lc, "@@s@@") || strings.Contains(lc, "secauditlog") || strings.Contains(lc, "secdebuglog") ||
+		strings.Contains(lc, "secupload") || strings.Contains(lc, "secdatadir") {
+		for _, d := range []string{e.scratch, e.tmp} {
+			if ents, err := os.ReadDir(d); err == nil {
+				for _, en := range ents {
+					_ = os.RemoveAll(filepath.Join(d, en.Name()))
+				}
+			}
 		}
 	}
-	if strings.Contains(strings.ToLower(conf), "setenv") {
+	if strings.Contains(lc, "setenv") {
 		os.Clearenv()
 		for _, kv := range e.environ {
 			if i := strings.IndexByte(kv, '='); i > 0 {
@@ -336,7 +347,61 @@ func clip(s string) string {
 	return strconv.QuoteToASCII(s) + "\n"
 }
 
+// heartbeat records the case about to be executed in the file the runner reads
+// when a worker dies (fatal errors - stack exhaustion, concurrent map writes -
+// cannot be recovered). runner.Ctx.Heartbeat opens, writes and closes the file
+// every time; with one case per 100 us that is the dominant cost, so the file is
+// kept open here and overwritten in place.
+type heartbeat struct {
+	c *runner.Ctx
+	f *os.File
+}
+
+func newHeartbeat(c *runner.Ctx) *heartbeat {
+	h := &heartbeat{c: c}
+	c.Heartbeat("c07-probe")
+	path := filepath.Join(filepath.Dir(c.Work), fmt.Sprintf("worker-%s%d.json.hb", c.Variant, c.Worker))
+	if b, err := os.ReadFile(path); err == nil && string(b) == `"c07-probe"` {
+		if f, err := os.OpenFile(path, os.O_WRONLY, 0o644); err == nil {
+			h.f = f
+		}
+	}
+	return h
+}
+
+func (h *heartbeat) beat(k kase) {
+	if h.f == nil {
+		h.c.Heartbeat(k)
+		return
+	}
+	b, _ := json.Marshal(k)
+	if _, err := h.f.WriteAt(b, 0); err == nil {
+		_ = h.f.Truncate(int64(len(b)))
+	}
+}
+
+func (h *heartbeat) close() {
+	if h.f != nil {
+		_ = h.f.Close()
+	}
+}
+
+// progress is shared between the goroutine that executes the cases and the
+// supervisor that watches it (the only concurrency of this check).
+type progress struct {
+	mu        sync.Mutex
+	index     int       // enumeration index of the case in progress (0 = none)
+	started   time.Time // when it started
+	abandoned bool      // the supervisor gave this executor up
+}
+
 func run(c *runner.Ctx) {
+	if pf := os.Getenv("C07_CPUPROFILE"); pf != "" && c.Worker == 3 {
+		if f, err := os.Create(pf); err == nil {
+			_ = pprof.StartCPUProfile(f)
+			defer pprof.StopCPUProfile()
+		}
+	}
 	e, err := newEnv(c.Work)
 	if err != nil {
 		c.Incomplete("cannot prepare the private directories: " + err.Error())
@@ -355,56 +420,129 @@ func run(c *runner.Ctx) {
 			seqs = append(seqs, i)
 		}
 	}
-	i := 0
-	stop := false
-	counts := forEachCase(c.Thorough(), func(k kase) {
-		i++
-		if stop || !c.Mine(i) {
-			return
+	hb := newHeartbeat(c)
+	defer hb.close()
+
+	// The cases are executed one after the other by one goroutine; this
+	// goroutine only watches the clock. When a case does not return within the
+	// watchdog time its executor is abandoned, the case is re-run twice (each
+	// under the same watchdog) before the hang is believed, and a new executor
+	// continues with the next case.
+	var counts map[string]int
+	from := 1
+	for {
+		p := &progress{}
+		done := make(chan struct{})
+		go func(from int) {
+			defer close(done)
+			cn := executor(c, e, hb, seqs, p, from)
+			if cn != nil {
+				counts = cn
+			}
+		}(from)
+		hung, hungCase := supervise(p, done)
+		if hung == 0 {
+			break
 		}
-		if i%64 == 0 && c.Expired() {
-			stop = true
-			return
+		c.Count("configurations", 1)
+		c.Count("watchdog_kills", 1)
+		c.Count("evaluations", 1)
+		again := 0
+		for n := 0; n < 2; n++ {
+			if _, ok := guarded(e, hungCase, seqs, "", watchdog); !ok {
+				again++
+			}
 		}
-		c.Heartbeat(k)
-		runCase(c, e, k, seqs)
-	})
-	if c.Worker == 0 {
-		keys := make([]string, 0, len(counts))
-		for k := range counts {
-			keys = append(keys, k)
+		if again == 2 {
+			c.Count("hangs_confirmed", 1)
+			c.Violation("hang:"+rootClass(hungCase.Class), describe(hungCase, "watchdog", fmt.Sprintf("no return within %v, three times", watchdog)), hungCase)
+		} else {
+			c.Count("watchdog_kills_not_confirmed", 1)
 		}
-		sort.Strings(keys)
-		space := map[string]int{}
-		for _, k := range keys {
-			space[k] = counts[k]
-		}
-		c.Extra("configurations_per_class", space)
+		from = hung + 1
+	}
+	if c.Worker == 0 && counts != nil {
+		c.Extra("configurations_per_class", counts)
 		c.Extra("battery", len(seqs))
 	}
 }
 
-func runCase(c *runner.Ctx, e *env, k kase, seqs []int) {
-	c.Count("configurations", 1)
-	r, ok := guarded(e, k, seqs, "", watchdog)
-	if !ok {
-		// not believed before it has been seen again, twice
-		c.Count("watchdog_kills", 1)
-		again := 0
-		for n := 0; n < 2; n++ {
-			if _, ok2 := guarded(e, k, seqs, "", watchdog); !ok2 {
-				again++
+// supervise returns (0, _) when the executor has finished, or the index and the
+// case that has been running for longer than the watchdog time.
+func supervise(p *progress, done chan struct{}) (int, kase) {
+	t := time.NewTicker(250 * time.Millisecond)
+	defer t.Stop()
+	for {
+		select {
+		case <-done:
+			return 0, kase{}
+		case <-t.C:
+			p.mu.Lock()
+			if p.index != 0 && time.Since(p.started) > watchdog {
+				p.abandoned = true
+				i := p.index
+				p.mu.Unlock()
+				return i, caseAt(i)
 			}
+			p.mu.Unlock()
 		}
-		c.Count("evaluations", 1)
-		if again == 2 {
-			c.Count("hangs_confirmed", 1)
-			c.Violation("hang:"+rootClass(k.Class), describe(k, "watchdog", fmt.Sprintf("no return within %v, three times", watchdog)), k)
-		} else {
-			c.Count("watchdog_kills_not_confirmed", 1)
-		}
-		return
 	}
+}
+
+var caseAtThorough bool
+
+// caseAt re-enumerates the space up to case i.
+func caseAt(i int) kase {
+	var out kase
+	n := 0
+	forEachCase(caseAtThorough, func(k kase) {
+		n++
+		if n == i {
+			out = k
+		}
+	})
+	return out
+}
+
+// executor runs this worker's share of the cases numbered from..; it returns
+// the per-class sizes of the space when it reached the end.
+func executor(c *runner.Ctx, e *env, hb *heartbeat, seqs []int, p *progress, from int) map[string]int {
+	caseAtThorough = c.Thorough()
+	i := 0
+	stop := false
+	counts := forEachCase(c.Thorough(), func(k kase) {
+		i++
+		if stop || i < from || !c.Mine(i) {
+			return
+		}
+		if c.Expired() {
+			stop = true
+			return
+		}
+		hb.beat(k)
+		p.mu.Lock()
+		p.index, p.started = i, time.Now()
+		p.mu.Unlock()
+		r := execute(e, k, seqs, "")
+		p.mu.Lock()
+		p.index = 0
+		gone := p.abandoned
+		if !gone {
+			record(c, k, r)
+		}
+		p.mu.Unlock()
+		if gone {
+			stop = true
+		}
+	})
+	if stop {
+		return nil
+	}
+	return counts
+}
+
+func record(c *runner.Ctx, k kase, r *result) {
+	c.Count("configurations", 1)
 	c.Count("evaluations", int64(r.builds+r.seqs))
 	c.Count("sequences_run", int64(r.seqs))
 	if r.accepted {
@@ -417,12 +555,51 @@ func runCase(c *runner.Ctx, e *env, k kase, seqs []int) {
 		c.Count("configurations_rejected", 1)
 	}
 	c.Outcome(r.outcome)
-	for _, p := range r.panics {
+	for sig, p := range signatures(r.panics) {
 		c.Count("panics", 1)
 		kk := k
 		kk.Seq = p.Stage
-		c.Violation(signature(p.Text), describe(k, p.Stage, p.Text), kk)
+		c.Violation(sig, describe(k, p.Stage, p.Text), kk)
 	}
+}
+
+// outOfOrder: sequences that call the transaction in an order no connector uses.
+var outOfOrder = map[string]bool{"reversed": true, "bodies-before-headers": true, "response-only": true, "repeats": true}
+
+const outOfOrderMark = " [body bytes written before the request headers were processed]"
+
+// bodyWriter: the innermost frame is one of the four body-buffering calls.
+func bodyWriter(sig string) bool {
+	return strings.Contains(sig, "Transaction).WriteRequestBody") || strings.Contains(sig, "Transaction).WriteResponseBody") ||
+		strings.Contains(sig, "Transaction).ReadRequestBodyFrom") || strings.Contains(sig, "Transaction).ReadResponseBodyFrom")
+}
+
+// signatures maps the panics of one case to root-cause signatures (first stage
+// per signature): blanked message + innermost coraza frame. One refinement, for
+// the slice arithmetic of the four body-buffering calls only: two different
+// defects end in the same frame with the same message - a limit that is not
+// positive (every write fails, also in connector order) and a limit lowered
+// below what is already buffered (needs body bytes written before phase 1, an
+// order no connector uses). A case of the second kind is recognised by failing
+// in none of the connector-order sequences and gets its own signature.
+func signatures(panics []panicRec) map[string]panicRec {
+	inOrder := map[string]bool{}
+	for _, p := range panics {
+		if !outOfOrder[strings.TrimSuffix(p.Stage, "#2")] {
+			inOrder[signature(p.Text)] = true
+		}
+	}
+	out := map[string]panicRec{}
+	for _, p := range panics {
+		sig := signature(p.Text)
+		if bodyWriter(sig) && !inOrder[sig] {
+			sig += outOfOrderMark
+		}
+		if _, ok := out[sig]; !ok {
+			out[sig] = p
+		}
+	}
+	return out
 }
 
 func replay(raw json.RawMessage) (bool, string) {
@@ -454,9 +631,9 @@ func replay(raw json.RawMessage) (bool, string) {
 		return true, describe(k, "watchdog", fmt.Sprintf("no return within %v", watchdog))
 	}
 	var sb strings.Builder
-	for _, p := range r.panics {
+	for sig, p := range signatures(r.panics) {
 		sb.WriteString(describe(k, p.Stage, p.Text))
-		sb.WriteString("signature: " + signature(p.Text) + "\n")
+		sb.WriteString("signature: " + sig + "\n")
 	}
 	if len(r.panics) == 0 {
 		fmt.Fprintf(&sb, "no panic; accepted=%v error=%q outcome=%s\n", r.accepted, r.buildErr, r.outcome)
